@@ -61,7 +61,13 @@ def check_shapes(run, states, ex, jnp, tier):
                 if s is None or s.num_channels != C:
                     continue
                 if kind == "repeated":
-                    s = ex.RepeatedStepper(s, 2)
+                    # the decision does not depend on the number of sub-steps (MC_Validate): one, two and three sub-steps, and a nested wrapper
+                    rich = tier != "quick" or sorted(classes).index(name) % 5 == 0
+                    for m in ((1, 2, 3) if rich else (1, 2)):
+                        targets.append((f"{name}x{m}", ex.RepeatedStepper(s, m)))
+                    if rich:
+                        targets.append((f"{name}x2x1", ex.RepeatedStepper(ex.RepeatedStepper(s, 2), 1)))
+                    continue
                 targets.append((name, s))
         for name, obj in targets:
             for st in sts:
